@@ -140,3 +140,22 @@ func vTransOK(t pr.SDimensions) bool {
 //@   call append#1 assert !haskey(anchors, anchorName) && arg1[0].Name == anchorName
 //@   call append#2 assert link.Type == "internal" && haskey(anchors, link.Target)
 //@   call append#3 assert link.Type != "internal"
+
+// Writing a document: one AddPage per laid-out page, in page order, with the media box the page declares
+// (the page box grown by its bleed area, in CSS pixels whatever the zoom); the links and anchors of page i
+// are attached to output page i; title and meta data are forwarded unchanged, each to its own setter.
+//@ func (*Document).Write
+//@   props C14
+//@   modifies anything
+//@   unclaimed call-makeBookmarkTree@1-pre1 "bookmark levels >= 1: established by the bookmark-level validator, not tracked through the page list"
+//@   call AddPage#1 assert[media-box] scale != 0 ==> arg1 == -fl(page.Bleed.Left) && arg2 == -fl(page.Bleed.Top) && arg3 == page.Width + fl(page.Bleed.Left) + fl(page.Bleed.Right) && arg4 == page.Height + fl(page.Bleed.Top) + fl(page.Bleed.Bottom)
+//@   call addHyperlinks#1 assert[links-of-this-page] arg1 == pagedLinks[rangeindex] && arg2 == outputPage
+//@   call scaleAnchors#1 assert[anchors-of-this-page] arg1 == pagedAnchors[rangeindex]
+//@   call CreateAnchors#1 assert[all-anchors] arg1 == pagedAnchors
+//@   call SetTitle#1 assert arg1 == d.Metadata.Title
+//@   call SetDescription#1 assert arg1 == d.Metadata.Description
+//@   call SetCreator#1 assert arg1 == d.Metadata.Generator
+//@   call SetAuthors#1 assert arg1 == d.Metadata.Authors
+//@   call SetKeywords#1 assert arg1 == d.Metadata.Keywords
+//@   call SetDateCreation#1 assert arg1 == d.Metadata.Created
+//@   call SetDateModification#1 assert arg1 == d.Metadata.Modified
